@@ -329,7 +329,7 @@ Lemma step_unfold s e :
   step s e =
   let* sk := sk_of (e_level e) (prev s) (skipped s) in
   let depth := e_level e - zsum sk in
-  if negb (depth =? zlen sk) || (depth <? 1) then Panic 387
+  if negb (depth =? zlen sk) || (depth <? 1) then Panic 396
   else
     let* (sp, rs) := insert_at depth e (spine s) (roots s) in
     Ok (mkst sk (e_level e) sp rs).
@@ -648,8 +648,8 @@ Proof.
   destruct (Z.gtb_spec (e_level e) 0) as [Hgt|_]; [lia|].
   cbn [length pop_loop].
   destruct (Z.ltb_spec (e_level e) 0) as [Hneg|Hnn].
-  - exists 371%N. reflexivity.
-  - assert (Hz : e_level e = 0) by lia. rewrite Hz. exists 387%N. reflexivity.
+  - exists 380%N. reflexivity.
+  - assert (Hz : e_level e = 0) by lia. rewrite Hz. exists 396%N. reflexivity.
 Qed.
 
 Print Assumptions make_tree_ok.
